@@ -3,4 +3,5 @@ pub mod framework;
 pub mod monitor;
 pub mod net;
 pub mod proc;
+pub mod real;
 pub mod rng;
